@@ -110,6 +110,7 @@ type transaction struct {
 	store   *store
 	op      keyvalue.OpID
 	results []keyvalue.OpResult
+	unlock  sync.Once
 }
 
 func (s *store) Transaction(options keyvalue.TransactionOptions) (keyvalue.Transaction, error) {
@@ -181,12 +182,12 @@ func (t *transaction) SetHandler(path string, src keyvalue.FileRecord, contents 
 
 func (t *transaction) Commit(ctx context.Context) ([]keyvalue.OpResult, error) {
 	t.abort()
-	t.store.mu.Unlock()
+	t.unlock.Do(t.store.mu.Unlock)
 	return t.results, nil
 }
 
 func (t *transaction) Abort() error {
 	t.abort()
-	t.store.mu.Unlock()
+	t.unlock.Do(t.store.mu.Unlock)
 	return nil
 }
